@@ -64,6 +64,10 @@ CHECKS = {
    text="AirEnforced.tla derives from the operation semantics of MidenVM.tla, in the mini field, which cells of the next row (stack positions, depth b0, overflow address b1, fmp, clk) are a function of the current row alone for every operation in every depth regime (16 / 17 / deeper) - the cells a transition constraint must pin down, minus those the documentation routes through a bus -, checks that the helper-limb relations of the u32 operations have exactly one solution for every operand tuple of the mini field, adds the documented stack effect of the control-flow rows and the chiplet / range-checker relations, and prints the table. For honest traces (every native operation and control-flow row executed directly on inputs at depth 16 / 17 / 18+, a depth sweep of every instruction kind, generated programs of all classes; rows validated against the specification in C03) the harness substitutes wrong values (v+1, v-1, 0, 1, neighbour, p-1, 2^32, random) in every enforced cell of every row - hasher rounds, bitwise rows, memory rows and range-checker steps included - and evaluates the real ProcessorAir transition constraints on the altered pair(s): at least one must be non-zero.",
    note="Trusted: TLC; winterfell's Air::evaluate_transition as the constraint system. Cells enforced through buses / virtual tables (range checks of helper limbs, chiplet lookups, overflow table, op group table) are C12's subject; CALLER (no documented constraints), the documented exclusion of the memory chiplet's last row and fmp on operations other than FMPUPDATE are not judged.",
    tech="TLA+ derivation of the enforced-cell table from the operation-level spec (TLC, mini field) + perturbation of spec-validated honest row pairs evaluated on the real AIR", ref="DESIGN.md §4 C04"),
+ "C12": dict(cat="model_checking",
+   text="Lookups.tla defines, from the specification's own machine state, the requests every operation sends to the memory and bitwise chiplets and to the range checker (the four helper limbs of each u32 operation, per u32_ops.md) and the number of hasher rows each block / batch / HPERM / MPVERIFY / MRUPDATE consumes. While TLC validates the recorded rows of an execution against MidenVM.tla (TV_VM) it accumulates these requests and, at the end, requires bag equality with what the trace provides: the memory chiplet's rows (ctx, addr, clk, read/write, word), the results of the bitwise cycles, the range table's (value, multiplicity) rows (requests = u32 limbs + the memory chiplet's delta limbs) and the length of the hasher segment. For the same executions the real auxiliary columns are built for k independently drawn (CSPRNG) challenge vectors and every running-product / LogUp column must end in the value Lookups!Terminal prescribes (block stack, block hash, op group tables, chiplets bus, and - without a kernel - the chiplets virtual table: 1; range bus: its initial value). Programs cover every feature class: single / multi-batch spans (incl. one-operation batches), split, loop, call, syscall, dynexec, dyncall, unused kernels, every chiplet-talking operation incl. MSTREAM / PIPE and Merkle operations (also a Merkle update that writes the value already stored), every native operation at depth 16 / 17 / deeper.",
+   note="Trusted: TLC; miden-crypto primitives for the Merkle tree in the advice provider. The stack overflow table's and the kernel procedure table's terminal values depend on public inputs: the former is asserted by the AIR (C03), the latter is recorded (the documentation's rule leaves open which rows of the kernel ROM enter the table). Binding self-test: a recording with one corrupted memory row must be rejected.",
+   tech="TLA+ request multisets computed during trace validation (impl -> spec) compared with recorded chiplet / range rows; terminal values of the real auxiliary columns under random challenges against the spec's contract", ref="DESIGN.md §4 C12"),
 }
 
 NOT_APPLICABLE = {
